@@ -66,8 +66,8 @@ _BASE_MONITORS = {
 # g2: a URI with a percent-encoded dot segment was decomposed and judged; g3: text around a bracketed literal / raw controls or spaces
 # went through set_request_uri resp. hostportsplit and the outcome was judged
 REQUIRED_MONITORS = {
-    "quick": dict(_BASE_MONITORS, g1_bracketed_host_uri=700, g1_bracketed_host_options=400, g2_escaped_dot_segment=1500, g3_junk_around_literal_uri=8000, g3_junk_around_literal_hostportsplit=8000, g3_control_or_space_uri=15000),
-    "thorough": dict(_BASE_MONITORS, g1_bracketed_host_uri=28000, g1_bracketed_host_options=16000, g2_escaped_dot_segment=60000, g3_junk_around_literal_uri=320000, g3_junk_around_literal_hostportsplit=320000, g3_control_or_space_uri=600000),
+    "quick": dict(_BASE_MONITORS, g1_bracketed_host_uri=700, g1_bracketed_host_options=400, g2_escaped_dot_segment=1500, g3_junk_around_literal_uri=8000, g3_junk_around_literal_hostportsplit=8000, g3_control_or_space_uri=15000, lone_surrogate_text=60),
+    "thorough": dict(_BASE_MONITORS, g1_bracketed_host_uri=28000, g1_bracketed_host_options=16000, g2_escaped_dot_segment=60000, g3_junk_around_literal_uri=320000, g3_junk_around_literal_hostportsplit=320000, g3_control_or_space_uri=600000, lone_surrogate_text=2400),
 }
 EXHAUSTIVE = {"fixed_witnesses": "every entry of FIXED (RFC 7252 6.3 / Appendix B examples, the repository's test URIs, one witness per known mechanism) in every run"}
 
@@ -657,6 +657,17 @@ TOKENS = ["coap", "coaps", "coap+tcp", "COAP", "http", "urn", "://", ":", "//", 
 
 def gen_arbitrary(r):
     k = r.random()
+    if k < 0.04:
+        # a valid URI with one lone surrogate (as os.fsdecode gives for a non-UTF-8 byte) somewhere in it
+        text, _meta = gen_uri(r)
+        pos = r.randrange(len(text) + 1)
+        return "surrogate", text[:pos] + chr(r.choice([0xD800, 0xDBFF, 0xDC00, 0xDCE9, 0xDCFF, 0xDFFF])) + text[pos:]
+    if k < 0.07:
+        # dotted-digit hosts with a label longer than any sane integer text (int() refuses beyond 4300 digits)
+        digits = r.choice(["7", "0", "12", "9"]) * r.choice([4301, 4400, 5000])
+        labels = [r.choice(["1", "2", "255", "a"]) for _ in range(r.choice([2, 3, 3, 3, 4]))]
+        labels[r.randrange(len(labels))] = digits[: r.choice([4300, 4301, 4400])]
+        return "long-digits", "coap://" + ".".join(labels) + r.choice(["", ":5683", ":"]) + r.choice(["/", "/x?y", ""])
     if k < 0.25:
         return "soup", "".join(r.choice(TOKENS) for _ in range(r.choice([1, 2, 3, 4, 6, 9])))
     if k < 0.40:
@@ -827,6 +838,13 @@ FIXED = [
     ("uri", "coap://h/secret/.%2E/.%2e/pub"),
     ("uri", "coap://h/a/b/%2e%2E"),
     ("uri", "coap://h/%2e%2e%2e/%2e%2ea/a%2e/%252e"),
+    # digit labels beyond what int() converts; lone surrogates (what os.fsdecode / sys.argv give for non-UTF-8 bytes)
+    ("arb", "coap://1.2.3." + "7" * 4301 + "/"),
+    ("arb", "coap://" + "0" * 4400 + ".2.3.4:5683/x"),
+    ("arb", "coap://a.b.c." + "7" * 4301 + "/"),
+    ("arb", "coap://h/caf\udce9"),
+    ("arb", "coap://h/p?q=\ud800x"),
+    ("arb", "coap://h\udcff.example/"),
     ("junk", "[::1]junk"),
     ("junk", "[::1]junk:5684"),
     ("junk", "[::1]]"),
@@ -1070,7 +1088,7 @@ class Checker:
             elif obs.uri_host is None:
                 t = D.host.text
                 labels = t.split(".")
-                if len(labels) == 4 and all(l.isascii() and l.isdigit() and int(l) <= 255 for l in labels):
+                if len(labels) == 4 and all(l.isascii() and l.isdigit() and len(l.lstrip("0")) <= 3 and int(l.lstrip("0") or "0") <= 255 for l in labels):
                     rep.count("ipv4_with_leading_zeros_treated_as_literal")  # RFC 3986 7.4: tolerated
                     lookalike_tolerated = True
                 else:
@@ -1404,6 +1422,20 @@ class Checker:
         from harness import refuri as ref
 
         rep = self.rep
+        if any(0xD800 <= ord(c) <= 0xDFFF for c in u):
+            # a lone surrogate code point: not text at all (it has no UTF-8 form, so it can neither be put into an
+            # option nor be percent-encoded): such a string is what Python hands out for non-UTF-8 command line or file
+            # name bytes. Not an acceptable URI whatever else it looks like.
+            rep.monitor("lone_surrogate_text")
+            st, res = self.attempt(u)
+            if st == "escape":
+                rep.violation(escape_key(u, res), "set_request_uri let %s escape for text with a lone surrogate" % type(res).__name__, {"text": ascii(u), "exc": repr(res)}, case)
+            elif st == "ok":
+                rep.violation("reject/lone-surrogate-accepted", "text containing a lone surrogate code point (no UTF-8 form: cannot be an option value) is accepted; serialising or composing the message fails later", {"text": ascii(u), "observed": ascii(Obs(res).as_dict())}, case)
+            else:
+                rep.count("rejected_with_" + type(res).__name__)
+            rep.case(("arb", kind, st, "surrogate"), nontrivial=True)
+            return
         refst = ref.classify(u)
         if refst[0] == "ok":
             rep.count("arbitrary_valid_uri")
